@@ -115,7 +115,10 @@ def _generate_slice(ns, node):
         else:
             sr = f"[{node.start}]"
     r, s = _generate_expression(ns, node.value)
-    return r + sr, s
+    # Bit/Part-selects are unsigned (in Verilog as in Migen), whatever the Signal is.
+    if (sr == "") and s:
+        return "{" + r + "}", False # 1-bit signed Signal (not sliced): make it unsigned.
+    return r + sr, False
 
 # Print Cat ----------------------------------------------------------------------------------------
 
